@@ -294,8 +294,12 @@ impl Check for C31 {
 
         let mut bad: Option<(String, String, String)> = None;
         if let Some(p) = &got.panic {
-            let class = if p.contains("TickBudgetExceeded") { "hang" } else { "panic" };
-            bad = Some((class.into(), panic_key(p), format!("`{goal}` interrupted at instruction {n}: {p}")));
+            if p.starts_with("answer-unprintable") {
+                bad = Some(("answer-unprintable".into(), format!("answer-unprintable:{}", goal), format!("`{goal}` interrupted at instruction {n}: the answer holds a term that cannot be printed: {p}")));
+            } else {
+                let class = if p.contains("TickBudgetExceeded") { "hang" } else { "panic" };
+                bad = Some((class.into(), panic_key(p), format!("`{goal}` interrupted at instruction {n}: {p}")));
+            }
         } else if fired {
             out.nontrivial = true;
             out.bump("fault.interrupt_fired", 1);
@@ -327,6 +331,10 @@ impl Check for C31 {
                 }
             } else if got == base {
                 bad = Some(("interrupt-swallowed".into(), format!("interrupt-swallowed-by:{}", catchers), format!("`{goal}`: interrupt raised at instruction {n} of {base_ticks} but the query returned its normal answers [{}]", got.text())));
+            } else if goal.starts_with("c31_") && catchers == "builtins:dispatch_call_list/1" {
+                // the continuation goal's own catch/3 (called from the conjunction) handled the
+                // interrupt, and the goals after the handler did not get to their answer
+                bad = Some(("post-handler-wrong".into(), format!("post-handler-failed:{}", goal), format!("`{goal}` interrupted at instruction {n} and handled by the goal's own catch/3: the goals after the handler ended with [{}], without an interrupt [{}]", got.text(), base.text())));
             } else {
                 bad = Some(("interrupt-converted".into(), format!("interrupt-converted-by:{}", catchers), format!("`{goal}` interrupted at instruction {n}: got [{}], expected the interrupt ball (baseline [{}]); balls were picked up by catch/3 goals called from: {}", got.text(), base.text(), catchers)));
             }
